@@ -77,8 +77,10 @@ CLAIMED = {
              "every codec, an encoding fails exactly when some character is not representable, the decoders accept exactly "
              "the encoders' outputs (no overlong forms, surrogates, truncation), for every newline option and line separator "
              "a text without CR is read back unchanged after translation, encoding, decoding and end-of-line normalisation "
-             "(c12_bytes_roundtrip, c12_write_read; a literal CR is not preserved: counterexample kept), and an ASCII "
-             "prefix - the XML declaration - is byte-transparent in the ASCII-compatible codecs. Tie to code: bytes of "
+             "(c12_bytes_roundtrip, c12_write_read; a literal CR is not preserved: counterexample kept), an ASCII "
+             "prefix is byte-transparent in the ASCII-compatible codecs, and the two levels are connected: the bytes of the "
+             "whole document text read back into that text and its parts (c12_document_bytes_roundtrip) and begin with the "
+             "code points of the declaration naming the requested label (c12_document_bytes_start_with_declaration). Tie to code: bytes of "
              "Document.save/write and str(Document) for generated documents x 11 encoding labels x 5 newline settings x 7 "
              "format options == model text, written by the Lean codec model (and, independently, newline-translated and "
              "encoded by Python's codec), and the Lean decoder + end-of-line normalisation reads the real bytes back into "
